@@ -69,6 +69,23 @@ CLAIMED.update({
     "C07": dict(text=TGX + "Clauses: ReturnsStartedValue, ChildErrorToCaller, ChildDoneBeforeCancelledStartReturns, GroupNotCancelledByStartFailure, SecondStartedIsError.", design_ref="DESIGN.md section 3 (C07)", note=GEN, technique=TECH),
 })
 
+CLAIMED.update({
+    "C19": dict(
+        text="SeqFns.tla defines the 20 anyio.itertools functions and reduce as declarative TLA+ operators on "
+             "finite sequences (with error classes); TLC enumerates the bounded domain (all sequences over a "
+             "3-letter alphabet up to length 4-5, all small parameters incl. invalid ones) and emits the expected "
+             "outcome per case; three-way agreement spec = stdlib = anyio with sync and async sources; seeded "
+             "longer cases are judged by TLC through T_SeqFns. tee: AioTee.tla (shared links, lock with FIFO "
+             "queue, re-check under the lock) with up to 5 consumers, observer P_Tee (EachSeesAll, "
+             "SourceConsumedOnce, ...), every edge / every complete interleaving replayed on the real tee and "
+             "validated by T_Tee.",
+        design_ref="DESIGN.md section 3 (C19)",
+        note="elements are integers / tuples; callbacks from a small named family; CPython's itertools is the "
+             "reference (batched(strict) from its documentation); tee replay on asyncio only",
+        technique="TLA+ operators evaluated by TLC over the bounded domain + differential replay; TLC model "
+                  "checking of tee interleavings + replay + TLC trace validation"),
+})
+
 NOT_YET = "check not built yet in this round (planned, see DESIGN.md section 3)"
 
 def main():
